@@ -102,8 +102,33 @@ FIXED_PROGRAMS = [
     'def f7 { salt: "\'s\'" splitters: uid return "\'sale\'" weighted 1, \'"y"\' weighted 1, "rock \'n\'" weighted 1, "{x}" weighted 1, "a{{b" weighted 1 }',
     'def f8 { salt: "{args!r:.1}+x+{0}" splitters: uid if s == "\\\' or 1): #" { return "A" weighted 1 } else { return "B" weighted 1, "\\" weighted 1 } }',
     'def f9 { splitters: Bucket, account, _env, userId, user_id return "A" weighted 1, "B" weighted 1, "C" weighted 1, "D" weighted 1, "E" weighted 1 }',
+    'def f11 { splitters: account_id, id, uid_x, uid return "A" weighted 1, "B" weighted 1, "C" weighted 1, "D" weighted 1 }',
+    'def f12 { splitters: uid if 5 < x { return "gt" weighted 1 } else if 5 <= x { return "eq" weighted 1 } else if -2 >= x { return "le" weighted 1 } else if "m" > x { return "s" weighted 1 } else { return "rest" weighted 1 } }',
+    'def f13 { splitters: uid if not a == 1 and b == 1 { return "p" weighted 1 } else if not a == 1 or b == 1 { return "q" weighted 1 } else { return "r" weighted 1 } }',
+    'def f14 { splitters: uid if x in ((1, 2)) { return "nested" weighted 1 } else if y == (("a")) { return "nested2" weighted 1 } else if z in ((1, 2), 3) { return "mixed" weighted 1 } else { return "no" weighted 1 } }',
+    'def f15 { salt: " v2 " splitters: uid return "A" weighted 1, "B" weighted 1, "C" weighted 1 }',
     'def f10 { salt: "\U0001F680x" splitters: uid return "A" weighted 1, "B" weighted 1 }',
 ]
+
+
+def big_programs():
+    """programs at the size bounds C07 names: 64 groups, else-if chains of 60, nesting 12, boolean chains of 60"""
+    out = []
+    out.append("def big_groups { splitters: uid return " + ", ".join('"g%d" weighted %d' % (i, 1 + i % 3) for i in range(64)) + " }")
+    chain = 'if x == 0 { return "c0" weighted 1 }' + "".join(' else if x == %d { return "c%d" weighted 1, "d%d" weighted 1 }' % (i, i, i) for i in range(1, 60)) + ' else { return "rest" weighted 1 }'
+    out.append("def big_chain { splitters: uid " + chain + " }")
+    nest = 'return "leaf" weighted 1'
+    for i in range(12):
+        nest = 'if x >= %d { %s } else { return "n%d" weighted 1 }' % (i, nest, i)
+    out.append("def big_nest { splitters: uid " + nest + " }")
+    conj = " and ".join("x != %d" % i for i in range(100, 160))
+    disj = " or ".join("x == %d" % i for i in range(60))
+    out.append('def big_bool { splitters: uid if %s { return "A" weighted 1 } else if %s { return "B" weighted 1 } else { return "C" weighted 1 } }' % (conj, disj))
+    out.append("def big_tuple { splitters: uid if x in (" + ", ".join(str(i) for i in range(64)) + ') { return "in" weighted 1 } else { return "out" weighted 1 } }')
+    out.append("def big_splitters { splitters: " + ", ".join("f%d" % i for i in range(32)) + ' return "A" weighted 1, "B" weighted 1 }')
+    return out
+
+
 SPECIAL_VALUES = [True, False, None, 1, "1", 1.0, "café", "josé", "", "x" * 500, "\x00", "'", "\\", 10 ** 40, -0.0, 1e300]
 
 
@@ -134,7 +159,7 @@ def pipeline_diff(req):
             if st == "ok":
                 progs.append((a, t))
     else:
-        for t in FIXED_PROGRAMS:
+        for t in FIXED_PROGRAMS + big_programs():
             st, a = dsl_ref.parse_text(t)
             if st == "ok":
                 progs.append((a, t))
@@ -147,7 +172,7 @@ def pipeline_diff(req):
             except ValueError:
                 continue
             progs.append((exp, text))
-    nfixed = 0 if only else len(FIXED_PROGRAMS)
+    nfixed = 0 if only else len(FIXED_PROGRAMS) + len(big_programs())
     for pi, (exp, text) in enumerate(progs):
         st, back = dsl_ref.parse_text(text)
         if st != "ok" or not same_value(back, exp) and not only and pi >= nfixed:
